@@ -48,9 +48,29 @@ fn word(r: &mut Rng, maxlen: u64) -> String {
 }
 
 /// A script value and how it reads once converted with `to_string`.
+/// A long text written compactly in case files: `{"rep": unit, "n": times, "tail": text}`.
+fn big_text(v: &Value) -> Option<String> {
+    let unit = v.get("rep")?.as_str()?;
+    let mut s = unit.repeat(v["n"].as_u64().unwrap_or(0) as usize);
+    s.push_str(v["tail"].as_str().unwrap_or(""));
+    Some(s)
+}
+
+/// Long texts in messages: head and tail only.
+fn abbreviate(s: &str) -> String {
+    let n = s.chars().count();
+    if n <= 80 {
+        return s.to_string();
+    }
+    let head: String = s.chars().take(30).collect();
+    let tail: String = s.chars().skip(n - 30).collect();
+    format!("{head}...({n} chars)...{tail}")
+}
+
 fn val_shown(v: &Value) -> String {
     match v {
         Value::String(s) => s.clone(),
+        Value::Object(_) => big_text(v).unwrap_or_default(),
         Value::Bool(b) => format!("{b}"),
         Value::Number(n) => format!("{}", n.as_f64().unwrap()),
         Value::Array(a) => {
@@ -76,6 +96,7 @@ fn val_lit(v: &Value, computed: bool) -> String {
                 strlit(s)
             }
         }
+        Value::Object(_) => strlit(&big_text(v).unwrap_or_default()),
         Value::Bool(b) => format!("{b}"),
         Value::Number(n) => num_lit(n.as_f64().unwrap()),
         Value::Array(a) => {
@@ -557,6 +578,14 @@ fn gen_val(r: &mut Rng) -> Value {
     }
 }
 
+/// 64 KiB and more, lengths on both sides of the multiples of 64 KiB and up to the 1 MiB host limit.
+fn gen_big_text(r: &mut Rng, max: u64) -> Value {
+    let unit = r.pick(&["a", "xy", "é", "0123456", "line\n"]);
+    let total = r.pick(&[65_535u64, 65_536, 65_537, 70_001, 81_924, 131_071, 131_072, 131_073, 200_001, 1_048_570]).min(max);
+    let tail = r.pick(&["", "!", "end", "Ω"]);
+    json!({"rep": unit, "n": (total.saturating_sub(tail.len() as u64)) / unit.len() as u64, "tail": tail})
+}
+
 fn gen_op(r: &mut Rng) -> Value {
     match r.below(13) {
         0..=3 => json!({"k": "arg", "v": gen_val(r)}),
@@ -673,7 +702,13 @@ impl Engine for C15 {
                 _ => steps.push(json!({"s": "run", "var": var})),
             }
         }
-        steps.push(json!({"s": "run", "var": r.pick(&made)}));
+        // a standard-input text of several pipe buffers (round 9: C15-25 cut the text at a multiple of 64 KiB)
+        let big_stdin = r.chance(3);
+        let last = r.pick(&made);
+        if big_stdin {
+            steps.push(json!({"s": "op", "var": last, "op": {"k": "stdin_text", "v": gen_big_text(&mut r, u64::MAX)}, "computed": false}));
+        }
+        steps.push(json!({"s": "run", "var": last}));
         if r.chance(25) {
             steps.push(json!({"s": "run", "var": r.pick(&made)}));
         }
@@ -684,8 +719,8 @@ impl Engine for C15 {
         let mut rk = Rng::stream(seed, self.tag() ^ 0x5c4ed, i);
         let sched = json!({"mode": "random", "seed": rk.next() >> 1, "p_clock": 0, "sticky": if i % 2 == 0 { 0 } else { 90 }});
         json!({
-            "allow": !r.chance(8), "caps": small_caps(&mut r), "slots": slots, "steps": steps,
-            "spawn_errors": spawn_errors, "pipe_cap": r.pick(&[1u64, 5, 4096]), "sched": sched,
+            "allow": !r.chance(8), "caps": if big_stdin { json!({}) } else { small_caps(&mut r) }, "slots": slots, "steps": steps,
+            "spawn_errors": spawn_errors, "pipe_cap": if big_stdin { r.pick(&[4096u64, 65_536]) } else { r.pick(&[1u64, 5, 4096]) }, "sched": sched,
         })
     }
 
@@ -771,6 +806,7 @@ impl Engine for C15 {
             pipeline::Outcome::Ran { out, err } => (out, err),
         };
         res.count("spawns", w.procs.len() as u64);
+        res.count("stdin_texts_of_64k_and_more_delivered", w.procs.iter().filter(|p| p.written[0].len() >= 65_535).count() as u64);
         res.count("fault_spawn_errors", u64::from(w.spawn_failures));
         for (k, n) in &exp.refusals {
             res.count(&format!("refused_{k}"), *n);
@@ -859,7 +895,13 @@ impl Engine for C15 {
             if m.stdin.0 == 2 && p.written[0] != m.stdin.1.as_bytes() {
                 return res.violation(
                     "wrong-stdin",
-                    format!("spawn {k}: child read {:?} from stdin, expected {:?}", lossy(&p.written[0]), m.stdin.1),
+                    format!(
+                        "spawn {k}: child read {} bytes {:?} from stdin, expected {} bytes {:?}",
+                        p.written[0].len(),
+                        abbreviate(&lossy(&p.written[0])),
+                        m.stdin.1.len(),
+                        abbreviate(&m.stdin.1)
+                    ),
                 );
             }
             if m.stdin.0 != 2 && !p.written[0].is_empty() {
@@ -1073,8 +1115,10 @@ fn gen_real(r: &mut Rng) -> Value {
         .collect();
     // directory names that a shell would mangle
     let cwd = if r.chance(50) { json!(r.pick(&["plain", "with space", "qu\"ote", "$HOME", "star*", "semi;colon", "日本", "a\\b", "-dash"])) } else { Value::Null };
-    let stdin = match r.below(3) {
-        0 => json!("null"),
+    let stdin = match r.below(12) {
+        0..=3 => json!("null"),
+        // the helper reports what it read in hex through the captured stdout (1 MiB limit)
+        4 => json!({"big": gen_big_text(r, 300_001)}),
         _ => json!({"text": real_word(r, 6)}),
     };
     // sometimes a configuration that must be refused before anything is spawned
@@ -1194,7 +1238,7 @@ fn exec_real(case: &Value) -> RunResult {
     match &case["stdin"] {
         Value::String(_) => src += "c.stdin_null()\n",
         o => {
-            let t = o["text"].as_str().unwrap_or("").to_string();
+            let t = big_text(&o["big"]).unwrap_or_else(|| o["text"].as_str().unwrap_or("").to_string());
             src += &format!("c.stdin_text({})\n", lit(&t));
             stdin_text = Some(t);
         }
@@ -1280,7 +1324,15 @@ fn exec_real(case: &Value) -> RunResult {
     }
     let want_stdin = stdin_text.unwrap_or_default();
     if got_stdin.as_deref() != Some(want_stdin.as_bytes()) {
-        return res.violation("wrong-stdin", format!("real OS: child read {:?} from stdin, expected {want_stdin:?}", got_stdin.map(|c| String::from_utf8_lossy(&c).into_owned())));
+        return res.violation(
+            "wrong-stdin",
+            format!(
+                "real OS: child read {:?} from stdin, expected {} bytes {:?}",
+                got_stdin.map(|c| format!("{} bytes {}", c.len(), abbreviate(&String::from_utf8_lossy(&c)))),
+                want_stdin.len(),
+                abbreviate(&want_stdin)
+            ),
+        );
     }
     res
 }
